@@ -454,7 +454,7 @@ def main_check(check, argv=None):
 
 def write_replay(check, scn, tape, sig, v, orig_scn, orig_tape):
     from .kernel import Tape
-    d = os.path.join(VERIF, "replays")
+    d = os.environ.get("VERIF_REPLAY_DIR") or os.path.join(VERIF, "replays")
     os.makedirs(d, exist_ok=True)
     h = hashlib.sha256(sig.encode()).hexdigest()[:8]
     path = os.path.join(d, "%s-%s-%d.json" % (check.prop, h, orig_scn.get("seed", 0)))
